@@ -876,12 +876,20 @@ func (e *Env) setup() {
 					srv.ServeHTTP(w, r)
 				})
 			}
+			if strings.Contains(sc.Opts, "srvdl") {
+				inner := h
+				h = http.HandlerFunc(func(w http.ResponseWriter, r *http.Request) {
+					ctx, cancel := context.WithTimeout(r.Context(), 1000*time.Hour)
+					defer cancel()
+					inner.ServeHTTP(w, r.WithContext(ctx))
+				})
+			}
 			e.srv = httptest.NewServer(h)
 			u, _ := url.Parse(e.srv.URL)
 			e.ch = &httpgrpc.Channel{Transport: http.DefaultTransport, BaseURL: u}
 		} else {
 			u, _ := url.Parse("http://mem")
-			e.ch = &httpgrpc.Channel{Transport: newMemTransport(srv, sc.EnvGiveUp, strings.Contains(sc.Opts, "fullduplex")), BaseURL: u}
+			e.ch = &httpgrpc.Channel{Transport: newMemTransport(srv, sc.EnvGiveUp, strings.Contains(sc.Opts, "fullduplex"), strings.Contains(sc.Opts, "srvdl")), BaseURL: u}
 		}
 	case "direct":
 	default:
